@@ -3,7 +3,7 @@ from __future__ import annotations
 
 import ast
 
-from .. import astu, flow, types
+from .. import astu, evid, flow, types
 from ..cfg import cfg_of
 from ..model import AnalysisError
 from ..report import key_of
@@ -16,37 +16,56 @@ AX = 'flax/core/axes_scan.py'
 TR = 'flax/linen/transforms.py'
 
 
+def _kw_forward(R, f, call, names, key, msg):
+  """Keywords of a located call/decorator must pass the same-named variable on."""
+  for k in names:
+    v = astu.kwarg(call, k)
+    kk = '%s :: %s' % (key, k)
+    if v is None:
+      if astu.has_star_kwargs(call):
+        R.unsure(kk, (f, call), 'cannot tell whether `%s` is forwarded through **kwargs' % k)
+      else:
+        R.fail(kk, (f, call), '%s: `%s` is not passed on in `%s`, so it silently falls back to its default' % (msg, k, astu.short(call, 80)))
+    else:
+      evid.judge_expr(R, f, v, k, kk, (f, call), msg)
+
+
 @rule('C06.R1', 'K4', 6, 'scan: broadcast, carry and per-step collections keep their positional roles end to end')
 def r1(R, repo):
   mod = repo.mod(LI)
   sc = mod.func('scan')
   pk = [x for x in astu.func_calls(sc) if astu.call_name(x) == 'pack']
   R.require(len(pk) == 1, 'lift.scan: pack(...) not found')
-  a = [astu.src(x) for x in pk[0].args[1:4]]
-  ok = a == ['(variable_broadcast, variable_carry) + variable_in_groups', '(variable_broadcast, variable_carry) + variable_out_groups', 'rng_groups']
-  R.check(ok, key_of(sc, 'filters = (broadcast, carry) + per-step groups, in and out'), (sc, pk[0]), 'lift.scan must lift (variable_broadcast, variable_carry) + scan groups in this order, for inputs and outputs (got %s)' % a)
+  evid.judge_call_args(R, repo, sc, pk[0], [None, '(variable_broadcast, variable_carry) + variable_in_groups', '(variable_broadcast, variable_carry) + variable_out_groups', 'rng_groups'],
+                       key_of(sc, 'filters = (broadcast, carry) + per-step groups, in and out'), (sc, pk[0]), 'lift.scan must lift (variable_broadcast, variable_carry) + scan groups in this order, for inputs and outputs')
   inner = mod.func('scan.inner')
-  txt = astu.src(inner.node)
-  ok = 'broadcast_vars = variable_groups[0]' in txt and 'carry_vars = variable_groups[1]' in txt and 'scan_vars = variable_groups[2:]' in txt
-  R.check(ok, key_of(inner, 'group 0 = broadcast, 1 = carry, 2: = per-step'), inner, 'scan.inner must read variable_groups[0] as broadcast, [1] as carry and [2:] as scanned collections')
+  evid.judge_stmts(R, inner, ['broadcast_vars = variable_groups[0]', 'carry_vars = variable_groups[1]', 'scan_vars = variable_groups[2:]'], key_of(inner, 'group 0 = broadcast, 1 = carry, 2: = per-step'), inner,
+                   'scan.inner must read variable_groups[0] as broadcast, [1] as carry and [2:] as scanned collections')
   call = [n for n in astu.body_walk(inner.node) if isinstance(n, ast.Assign) and isinstance(n.value, ast.Call) and astu.call_name(n.value) == 'scanned']
   R.require(len(call) == 1, 'scan.inner: call of scanned not found')
-  args = [astu.src(x) for x in call[0].value.args]
-  ok = args == ['broadcast_vars', '(carry_vars, init)', 'tuple(new_scan_vars)', 'rng_groups', 'args'] and astu.src(call[0].targets[0]) == '(broadcast_vars, (carry_vars, c), (ys, scan_vars))'
-  R.check(ok, key_of(inner, 'scanned(broadcast, (carry vars, init), scan vars, rngs, args) -> (broadcast, (carry vars, c), (ys, scan vars))'), (inner, call[0]),
-          'the scanned function must be called with (broadcast, (carry variables, init), scanned variables, rngs, args) and its result destructured in the mirrored layout')
+  key = key_of(inner, 'scanned(broadcast, (carry vars, init), scan vars, rngs, args) -> (broadcast, (carry vars, c), (ys, scan vars))')
+  evid.judge_call_args(R, repo, inner, call[0].value, ['broadcast_vars', '(carry_vars, init)', 'tuple(new_scan_vars)', 'rng_groups', 'args'], key, (inner, call[0]),
+                       'the scanned function must be called with (broadcast, (carry variables, init), scanned variables, rngs, args)')
+  evid.judge_expr(R, inner, call[0].targets[0], '(broadcast_vars, (carry_vars, c), (ys, scan_vars))', key + ' :: result', (inner, call[0]), 'the result of scanned must be destructured in the mirrored layout', follow=False)
   sd = mod.func('scan.inner.scanned')
-  st = astu.src(sd.node)
-  ok = 'carry_vars, c = carry' in st and 'variable_groups = (broadcast_vars, carry_vars) + scan_variable_groups' in st and 'broadcast_vars_out = out_vars[0]' in st and 'carry_vars = out_vars[1]' in st and \
-      'scan_vars = out_vars[2:]' in st and 'return (broadcast_vars_out, (carry_vars, c), (y, scan_vars))' in st and 'c, y = fn(scope, c, *args)' in st
-  R.check(ok, key_of(sd, 'per-step body keeps the same positions'), sd, 'scanned must rebuild the groups as (broadcast, carry) + scanned, call fn(scope, c, *args) -> (c, y), and return (broadcast out, (carry vars, c), (y, scanned vars))')
-  R.check('out_vars = (broadcast_vars, carry_vars) + scan_vars' in txt and 'return ((c, ys), out_vars)' in txt, key_of(inner, 'result = ((final carry, stacked ys), (broadcast, carry) + scanned)'), inner,
-          'scan.inner must return ((c, ys), (broadcast_vars, carry_vars) + scan_vars)')
+  evid.judge_stmts(R, sd, ['carry_vars, c = carry', 'variable_groups = (broadcast_vars, carry_vars) + scan_variable_groups', 'broadcast_vars_out = out_vars[0]', 'carry_vars = out_vars[1]', 'scan_vars = out_vars[2:]',
+                           'return (broadcast_vars_out, (carry_vars, c), (y, scan_vars))', 'c, y = fn(scope, c, *args)'], key_of(sd, 'per-step body keeps the same positions'), sd,
+                   'scanned must rebuild the groups as (broadcast, carry) + scanned, call fn(scope, c, *args) -> (c, y), and return (broadcast out, (carry vars, c), (y, scanned vars))')
+  evid.judge_stmts(R, inner, ['out_vars = (broadcast_vars, carry_vars) + scan_vars', 'return ((c, ys), out_vars)'], key_of(inner, 'result = ((final carry, stacked ys), (broadcast, carry) + scanned)'), inner,
+                   'scan.inner must return ((c, ys), (broadcast_vars, carry_vars) + scan_vars)')
   ax = repo.mod(AX)
   for q in ('scan.scan_fn', 'scan.simple_scan_fn'):
     f = ax.func(q)
     body = ax.func(q + '.body_fn')
-    R.check('fn(broadcast_in, c, *xs)' in astu.src(body.node) and astu.pos_params(f.node)[:2] == ['broadcast_in', 'init'], key_of(f, 'fn(broadcast, carry, *xs)'), f, '%s must call the body as fn(broadcast_in, c, *xs)' % q)
+    calls = [x for x in astu.func_calls(body) if astu.src(x.func) == 'fn']
+    key = key_of(f, 'fn(broadcast, carry, *xs)')
+    if len(calls) == 1 and len(calls[0].args) >= 2:
+      evid.judge_call_args(R, repo, body, calls[0], ['broadcast_in', 'c'], key, (body, calls[0]), '%s must call the body as fn(broadcast_in, c, *xs)' % q)
+    else:
+      R.unsure(key, f, 'fn(...) call in body_fn not recognised')
+
+
+AXV = ('variable_in_axes', 'variable_out_axes', 'in_axes', 'out_axes', 'rng_axes')
 
 
 @rule('C06.R2', 'K7', 6, 'in-axes are used on the way in, out-axes on the way out, for variables and for arguments')
@@ -54,26 +73,28 @@ def r2(R, repo):
   mod = repo.mod(LI)
   for q, inner_q, deco_name in (('vmap', 'vmap.inner.mapped', 'jax.vmap'), ('scan', 'scan.inner.scanned', 'axes_scan.scan')):
     f = mod.func(q)
-    txt = astu.src(f.node)
-    ok = 'variable_in_axes, variable_out_axes = _split_in_out_axes(variable_axes)' in txt and 'variable_in_groups, variable_in_axes = _unzip2(variable_in_axes.items())' in txt and \
-        'variable_out_groups, variable_out_axes = _unzip2(variable_out_axes.items())' in txt
-    R.check(ok, key_of(f, 'in/out halves of variable_axes unzipped into (groups, axes)'), f, 'lift.%s must split variable_axes into its in and out halves and unzip each into (filters, axes)' % q)
+    evid.judge_stmts(R, f, ['variable_in_axes, variable_out_axes = _split_in_out_axes(variable_axes)', 'variable_in_groups, variable_in_axes = _unzip2(variable_in_axes.items())',
+                            'variable_out_groups, variable_out_axes = _unzip2(variable_out_axes.items())'], key_of(f, 'in/out halves of variable_axes unzipped into (groups, axes)'), f,
+                     'lift.%s must split variable_axes into its in and out halves and unzip each into (filters, axes)' % q)
     g = mod.func(inner_q)
     deco = [d for d in g.node.decorator_list if deco_name in astu.src(d)]
     R.require(len(deco) == 1, '%s: %s decorator not found' % (inner_q, deco_name))
     d = deco[0]
-    ia, oa = astu.kwarg(d, 'in_axes'), astu.kwarg(d, 'out_axes')
-    ok = astu.src(ia) == '(variable_in_axes, rng_axes, in_axes)' and astu.src(oa) == '(out_axes, variable_out_axes)'
-    R.check(ok, key_of(g, '%s(in_axes=(variable_in_axes, rng_axes, in_axes), out_axes=(out_axes, variable_out_axes))' % deco_name), (g, d),
-            '%s must receive in_axes=(variable_in_axes, rng_axes, in_axes) and out_axes=(out_axes, variable_out_axes) (got %s / %s)' % (deco_name, astu.src(ia), astu.src(oa)))
+    key = key_of(g, '%s(in_axes=(variable_in_axes, rng_axes, in_axes), out_axes=(out_axes, variable_out_axes))' % deco_name)
+    evid.judge_expr(R, f, astu.kwarg(d, 'in_axes'), '(variable_in_axes, rng_axes, in_axes)', key + ' :: in_axes', (g, d), '%s must receive in_axes=(variable_in_axes, rng_axes, in_axes)' % deco_name, vocab=AXV)
+    evid.judge_expr(R, f, astu.kwarg(d, 'out_axes'), '(out_axes, variable_out_axes)', key + ' :: out_axes', (g, d), '%s must receive out_axes=(out_axes, variable_out_axes)' % deco_name, vocab=AXV)
     if q == 'vmap':
       pk = [x for x in astu.func_calls(f) if astu.call_name(x) == 'pack']
-      R.check(len(pk) == 1 and [astu.src(a) for a in pk[0].args[1:4]] == ['variable_in_groups', 'variable_out_groups', 'rng_groups'], key_of(f, 'pack(inner, in groups, out groups, rng groups)'), f, 'lift.vmap must lift the in-groups in and the out-groups out')
+      evid.judge_call_args(R, repo, f, pk[0] if len(pk) == 1 else None, [None, 'variable_in_groups', 'variable_out_groups', 'rng_groups'], key_of(f, 'pack(inner, in groups, out groups, rng groups)'), f, 'lift.vmap must lift the in-groups in and the out-groups out')
   sp = mod.func('_split_in_out_axes')
   ia, oa = types.single_def(sp.node, 'in_axes'), types.single_def(sp.node, 'out_axes')
-  ok = isinstance(ia, ast.DictComp) and isinstance(oa, ast.DictComp) and [astu.src(x) for x in ia.generators[0].ifs] == ['not isinstance(v, Out)'] and [astu.src(x) for x in oa.generators[0].ifs] == ['not isinstance(v, In)'] and \
-      astu.src(ia.generators[0].iter) == astu.src(oa.generators[0].iter) == '%s.items()' % astu.params(sp.node)[0] and 'return (in_axes, out_axes)' in astu.src(sp.node)
-  R.check(ok, key_of(sp, 'In(...) only in, Out(...) only out, plain axes both'), sp, '_split_in_out_axes must route In(axis) to the in half only, Out(axis) to the out half only, and plain axes to both')
+  key = key_of(sp, 'In(...) only in, Out(...) only out, plain axes both')
+  if isinstance(ia, ast.DictComp) and isinstance(oa, ast.DictComp) and len(ia.generators[0].ifs) == 1 and len(oa.generators[0].ifs) == 1:
+    evid.judge_expr(R, sp, ia.generators[0].ifs[0], 'not isinstance(v, Out)', key + ' :: in', sp, '_split_in_out_axes must route In(axis) to the in half only', follow=False)
+    evid.judge_expr(R, sp, oa.generators[0].ifs[0], 'not isinstance(v, In)', key + ' :: out', sp, '_split_in_out_axes must route Out(axis) to the out half only', follow=False)
+    evid.judge_stmts(R, sp, ['return (in_axes, out_axes)'], key + ' :: order', sp, '_split_in_out_axes must return (in half, out half)')
+  else:
+    R.unsure(key, sp, '_split_in_out_axes is not a pair of filtered dict comprehensions')
 
 
 @rule('C06.R3', 'K4', 5, 'an rng stream is split along the mapped axis iff it is declared split')
@@ -82,12 +103,16 @@ def r3(R, repo):
   for q, bc in (('vmap', 'None'), ('scan', 'axes_scan.broadcast')):
     f = mod.func(q)
     d = types.single_def(f.node, 'rng_axes')
-    R.check(d is not None and astu.src(d) == 'tuple((0 if rng_split else %s for rng_split in rng_splits))' % bc, key_of(f, 'rng axis 0 iff split'), f, 'lift.%s must map split streams over axis 0 and share the others (%s)' % (q, bc))
-    R.check('rng_groups, rng_splits = _unzip2(split_rngs.items())' in astu.src(f.node), key_of(f, 'rng filters and split flags from the same dict order'), f, 'rng_groups and rng_splits must come from one pass over split_rngs.items()')
+    evid.judge_expr(R, f, d, 'tuple((0 if rng_split else %s for rng_split in rng_splits))' % bc, key_of(f, 'rng axis 0 iff split'), f, 'lift.%s must map split streams over axis 0 and share the others (%s)' % (q, bc), follow=False)
+    evid.judge_stmts(R, f, ['rng_groups, rng_splits = _unzip2(split_rngs.items())'], key_of(f, 'rng filters and split flags from the same dict order'), f, 'rng_groups and rng_splits must come from one pass over split_rngs.items()')
     inner = mod.func(q + '.inner')
     dd = [x[0] for x in flow.defs(inner, 'rng_groups') if not isinstance(x[0], tuple)]
-    ok = any(astu.src(x) == 'tuple((tree_map_rngs(split_fn, rng_group) if split else rng_group for rng_group, split in zip(rng_groups, rng_splits)))' for x in dd)
-    R.check(ok, key_of(inner, 'keys split iff declared split'), inner, '%s.inner must apply split_fn exactly to the streams flagged in rng_splits (same order as rng_axes)' % q)
+    key = key_of(inner, 'keys split iff declared split')
+    if len(dd) == 1:
+      evid.judge_expr(R, inner, dd[0], 'tuple((tree_map_rngs(split_fn, rng_group) if split else rng_group for rng_group, split in zip(rng_groups, rng_splits)))', key, inner,
+                      '%s.inner must apply split_fn exactly to the streams flagged in rng_splits (same order as rng_axes)' % q, follow=False)
+    else:
+      R.unsure(key, inner, 'rebinding of rng_groups not recognised')
     size = 'd_axis_size' if q == 'vmap' else 'd_length'
     sf = [x[0] for x in flow.defs(inner, 'split_fn') if isinstance(x[0], ast.Lambda)]
     R.check(len(sf) == 2 and all(('random.split(' in astu.src(x) and astu.src(x).rstrip(')').endswith(size)) for x in sf), key_of(inner, 'split into one key per index'), inner, 'split_fn must split each key into %s keys' % size)
@@ -102,16 +127,23 @@ def r4(R, repo):
   for q in ('scan.scan_fn', 'scan.simple_scan_fn'):
     f = ax.func(q)
     c = cfg_of(f)
-    pre = [n for n in c.nodes if isinstance(n.stmt, ast.Assign) and astu.src(n.stmt) == 'xs = jax.tree_util.tree_map(transpose_to_front, in_axes, args)']
-    post = [n for n in c.nodes if isinstance(n.stmt, ast.Assign) and astu.src(n.stmt) == 'ys = jax.tree_util.tree_map(transpose_from_front, out_axes, ys)']
+    tm = lambda n, fn_: isinstance(n.stmt, ast.Assign) and isinstance(n.stmt.value, ast.Call) and astu.call_tail(n.stmt.value) == 'tree_map' and n.stmt.value.args and astu.src(n.stmt.value.args[0]) == fn_
+    pre = [n for n in c.nodes if tm(n, 'transpose_to_front')]
+    post = [n for n in c.nodes if tm(n, 'transpose_from_front')]
     scans = [n for n in c.nodes if isinstance(n.stmt, ast.Assign) and isinstance(n.stmt.value, ast.Call) and astu.call_name(n.stmt.value) == 'lax.scan']
-    ok = len(pre) == 1 and len(post) == 1 and len(scans) == 2 and all(c.dominated(s, pre) for s in scans) and all(post[0] in c.reach([s]) and s not in c.reach(post) for s in scans)
-    R.check(ok, key_of(f, 'to_front(in_axes) -> lax.scan -> from_front(out_axes)'), f, '%s must transpose the inputs to the front with in_axes before lax.scan and the outputs back with out_axes after it' % q)
+    key = key_of(f, 'to_front(in_axes) -> lax.scan -> from_front(out_axes)')
+    if len(pre) == 1 and len(post) == 1 and scans:
+      ok = all(c.dominated(s, pre) for s in scans) and all(post[0] in c.reach([s]) and s not in c.reach(post) for s in scans)
+      R.check(ok, key, f, '%s must transpose the inputs to the front with in_axes before lax.scan and the outputs back with out_axes after it' % q, evidence=True)
+      evid.judge_call_args(R, repo, f, pre[0].stmt.value, [None, 'in_axes', 'args'], key + ' :: in', (f, pre[0].stmt), 'the inputs must be transposed with in_axes')
+      evid.judge_call_args(R, repo, f, post[0].stmt.value, [None, 'out_axes', 'ys'], key + ' :: out', (f, post[0].stmt), 'the stacked outputs must be transposed back with out_axes')
+    else:
+      R.unsure(key, f, 'tree_map(transpose_to_front/transpose_from_front, …) / lax.scan not found')
     for s in scans:
       call = s.stmt.value
-      ok = [astu.src(a) for a in call.args] == ['body_fn', 'init', 'xs'] and all(flow.kw_forwarded(call, k) for k in ('length', 'reverse', 'unroll'))
-      R.check(ok, key_of(f, 'lax.scan(body_fn, init, xs, length, reverse, unroll)', 'with _split_transpose' if astu.kwarg(call, '_split_transpose') is not None else 'legacy'), (f, call),
-              'every lax.scan call of %s must pass length, reverse and unroll unchanged' % q)
+      key = key_of(f, 'lax.scan(body_fn, init, xs, length, reverse, unroll)', 'with _split_transpose' if astu.kwarg(call, '_split_transpose') is not None else 'legacy')
+      evid.judge_call_args(R, repo, f, call, ['body_fn', 'init', 'xs'], key, (f, call), 'every lax.scan call of %s must scan body_fn over xs from init' % q)
+      _kw_forward(R, f, call, ('length', 'reverse', 'unroll'), key, 'every lax.scan call of %s must pass length, reverse and unroll unchanged' % q)
   tf, tt = ax.func('scan.transpose_from_front'), ax.func('scan.transpose_to_front')
   for g in (tf, tt):
     t = astu.src(g.node)
@@ -122,9 +154,14 @@ def r4(R, repo):
   pdefs = flow.defs(tr, 'pax')
   outer_defs = flow.defs(tf, 'pax')
   nd = [n for n in ast.walk(tf.node) if isinstance(n, ast.Attribute) and n.attr == 'ndim']
-  ok = len(pdefs) >= 1 and not outer_defs and all(isinstance(n.value, ast.Name) and n.value.id == xp and ax.func_of_node(n).qual.endswith('.trans') for n in nd)
-  R.check(ok, key_of(tr, 'negative axis normalised per leaf (x.ndim of the leaf being transposed)'), tr,
-          'a negative out_axes must be normalised with the rank of *each* leaf inside trans(x): out_axes is a prefix that can cover leaves of different rank, so a position computed once from another leaf misplaces the axis')
+  key = key_of(tr, 'negative axis normalised per leaf (x.ndim of the leaf being transposed)')
+  foreign = [n for n in nd if not (isinstance(n.value, ast.Name) and n.value.id == xp and ax.func_of_node(n).qual.endswith('.trans'))]
+  if outer_defs and foreign:
+    R.fail(key, (tf, foreign[0]), 'a negative out_axes must be normalised with the rank of *each* leaf inside trans(x): out_axes is a prefix that can cover leaves of different rank, but `%s` computes the position once from another leaf' % astu.short(astu.enclosing_stmt(foreign[0])))
+  elif pdefs and not outer_defs and not foreign:
+    R.ok(key, tr)
+  else:
+    R.unsure(key, tr, 'normalisation of negative axes not recognised')
   R.check('perm = tuple(range(1, pax + 1)) + (0,) + tuple(range(pax + 1, x.ndim))' in astu.src(tr.node), key_of(tr, 'front axis moved to position pax'), tr, 'transpose_from_front must move axis 0 to position pax')
   R.check('perm = (ax,) + tuple(np.delete(perm, ax))' in astu.src(ax.func('scan.transpose_to_front.trans').node), key_of(tt, 'axis ax moved to the front'), tt, 'transpose_to_front must move axis ax to position 0')
   sf = ax.func('scan.scan_fn')
@@ -138,25 +175,26 @@ def r5(R, repo):
   _c05.check_lift_plumbing(R, repo, 'remat_scan', 'lift.remat_scan', ['lengths', 'policy', 'variable_broadcast', 'variable_carry', 'variable_axes', 'split_rngs'])
   mod = repo.mod(LI)
   sd = mod.func('scan.inner.scanned')
-  d = [x for x in sd.node.decorator_list if 'axes_scan.scan' in astu.src(x)][0]
-  miss = [k for k in ('length', 'reverse', 'unroll', '_split_transpose', 'check_constancy_invariants') if not flow.kw_forwarded(d, k)]
-  R.check(not miss, key_of(sd, 'axes_scan.scan(length, reverse, unroll, _split_transpose, check_constancy_invariants)'), (sd, d), 'lift.scan does not forward %s to axes_scan.scan' % miss)
+  d = [x for x in sd.node.decorator_list if 'axes_scan.scan' in astu.src(x)]
+  R.require(len(d) == 1, 'scan.inner.scanned: axes_scan.scan decorator not found')
+  _kw_forward(R, mod.func('scan'), d[0], ('length', 'reverse', 'unroll', '_split_transpose', 'check_constancy_invariants'), key_of(sd, 'axes_scan.scan(length, reverse, unroll, _split_transpose, check_constancy_invariants)'), 'lift.scan must forward its options to axes_scan.scan')
   mp = mod.func('vmap.inner.mapped')
-  d = [x for x in mp.node.decorator_list if 'jax.vmap' in astu.src(x)][0]
-  miss = [k for k in ('axis_name', 'axis_size', 'spmd_axis_name') if not flow.kw_forwarded(d, k)]
-  R.check(not miss, key_of(mp, 'jax.vmap(axis_name, axis_size, spmd_axis_name)'), (mp, d), 'lift.vmap does not forward %s to jax.vmap' % miss)
+  d = [x for x in mp.node.decorator_list if 'jax.vmap' in astu.src(x)]
+  R.require(len(d) == 1, 'vmap.inner.mapped: jax.vmap decorator not found')
+  _kw_forward(R, mod.func('vmap'), d[0], ('axis_name', 'axis_size', 'spmd_axis_name'), key_of(mp, 'jax.vmap(axis_name, axis_size, spmd_axis_name)'), 'lift.vmap must forward its options to jax.vmap')
   rs = mod.func('remat_scan')
   opts = [p for p in astu.params(rs.node) if p not in ('body_fn', 'lengths')]
   pos = astu.pos_params(rs.node)
   recs = [x for x in ast.walk(rs.node) if isinstance(x, ast.Call) and astu.call_name(x) == 'remat_scan']
   R.require(len(recs) == 1, 'remat_scan: recursive call not found')
-  miss = [o for o in opts if not flow.kw_forwarded(recs[0], o, pos=pos.index(o))]
-  R.check(not miss, key_of(rs, 'inner levels receive every option'), (rs, recs[0]),
-          'the recursive remat_scan call for the inner levels does not forward %s: inner levels silently fall back to the defaults (e.g. split every rng stream)' % miss)
-  R.check(astu.src(recs[0].args[1]) == 'lengths[1:]' and astu.src(recs[0].args[0]) == 'body_fn', key_of(rs, 'recursion on lengths[1:] with the same body'), (rs, recs[0]), 'the recursion must continue with the same body and lengths[1:]')
+  evid.judge_forward(R, repo, rs, recs[0], opts, key_of(rs, 'inner levels receive every option'),
+                     'the recursive remat_scan call for the inner levels must forward every option: inner levels otherwise silently fall back to the defaults (e.g. split every rng stream)', pos={o: pos.index(o) for o in opts})
+  evid.judge_call_args(R, repo, rs, recs[0], ['body_fn', 'lengths[1:]'], key_of(rs, 'recursion on lengths[1:] with the same body'), (rs, recs[0]), 'the recursion must continue with the same body and lengths[1:]')
   sf = types.single_def(rs.node, 'scan_fn')
-  miss = [o for o in ('variable_broadcast', 'variable_carry', 'variable_axes', 'split_rngs') if sf is None or not flow.kw_forwarded(sf, o)]
-  R.check(not miss, key_of(rs, 'every level scans with the user\'s variable/rng options'), rs, 'remat_scan must build its scan with %s' % miss)
+  if isinstance(sf, ast.Call):
+    _kw_forward(R, rs, sf, ('variable_broadcast', 'variable_carry', 'variable_axes', 'split_rngs'), key_of(rs, 'every level scans with the user\'s variable/rng options'), 'remat_scan must build its scan with the user\'s options')
+  else:
+    R.unsure(key_of(rs, 'every level scans with the user\'s variable/rng options'), rs, 'scan_fn = functools.partial(scan, …) not found')
 
 
 @rule('C06.R6', 'K2', 14, 'scopes are repacked and published exactly once around the mapped / scanned call (shared with C05.R1, C05.R2)')
